@@ -106,6 +106,9 @@ impl C05 {
         // recurring blocks of 1..10 digits whose remainder numerator is as large as it gets
         // ((b^p - 2)/(b^p - 1) = 0.[zz..zy]): the products (b^p - 1) * numerator pass 2^63 for b >= 12
         fams.add("short recurring block x largest remainder, every base", vec![35, 10, 3, 2, MODES.len() as u64]);
+        // two numerals in a row on one thread: the first must not influence the second (whatever a
+        // printing routine remembers between calls - scale factors, digit tables - is keyed correctly)
+        fams.add("a numeral printed right after another one: value pairs x base pairs x mode", vec![SEQ_VALS.len() as u64, SEQ_VALS.len() as u64, bases.len() as u64, bases.len() as u64, SEQ_MODES.len() as u64]);
         C05 { fams, rats, bases, kmax, jmax, qvals, ctx: Lazy::new() }
     }
 
@@ -126,6 +129,10 @@ impl C05 {
                     v = -v;
                 }
                 (1, Some(v), b, MODES[d[6] as usize])
+            }
+            4 => {
+                let (p, q) = SEQ_VALS[d[1] as usize];
+                (4, Some(rat(p, q)), self.bases[d[3] as usize], SEQ_MODES[d[4] as usize])
             }
             3 => {
                 let b = d[0] as u32 + 2;
@@ -149,6 +156,9 @@ impl C05 {
         }
     }
 }
+
+const SEQ_VALS: [(i64, i64); 6] = [(15, 1), (25_000_000_000, 1), (1, 40_000_000_000), (1, 3), (1500, 7), (1_000_000_007, 1)];
+const SEQ_MODES: [Digits; 3] = [Digits::Scientific, Digits::Engineering, Digits::Default];
 
 fn check_direct(x: &Rat, base: u32, mode: Digits) -> (String, Vec<(String, String)>) {
     let n = to_numeric(x);
@@ -219,7 +229,7 @@ impl Space for C05 {
         Meta {
             id: "C05",
             level: "exploration",
-            rule: "rationals (all p/q with |p|,q <= N; magnitudes straddling the 1e-9/1e9 switches; denominators with long/huge periods 97, 3937, 9973, 65537, 1000003; 2^4096+1 and its reciprocal; per base the family (b^k+d1)/(b^j+d2), d in {-1,0,1}, both signs; per base 2..36 the family (b^p-2)/(b^p-1), (b^p-1-b^(p-1))/(b^p-1), (b^p/2)/(b^p-1) for p in 1..10, alone and added to 12345: short recurring blocks with the largest remainders) x bases x 11 digits modes through Numeric::to_string/string_repr, plus the query path `x -> <mode> base B`; every printed numeral is read back by an independent numeral reader (sign, integer digits, radix point, fraction digits, [block, period N]..., e+-k scaling by base^k). Non-trivial = nonzero value; distinct by (value, base, mode)".into(),
+            rule: "rationals (all p/q with |p|,q <= N; magnitudes straddling the 1e-9/1e9 switches; denominators with long/huge periods 97, 3937, 9973, 65537, 1000003; 2^4096+1 and its reciprocal; per base the family (b^k+d1)/(b^j+d2), d in {-1,0,1}, both signs; per base 2..36 the family (b^p-2)/(b^p-1), (b^p-1-b^(p-1))/(b^p-1), (b^p/2)/(b^p-1) for p in 1..10, alone and added to 12345: short recurring blocks with the largest remainders) x bases x 11 digits modes through Numeric::to_string/string_repr; every ordered pair of 6 values x every ordered pair of bases x {sci, eng, default} printed one right after the other on one thread, the second one judged; plus the query path `x -> <mode> base B`; every printed numeral is read back by an independent numeral reader (sign, integer digits, radix point, fraction digits, [block, period N]..., e+-k scaling by base^k). Non-trivial = nonzero value; distinct by (value, base, mode)".into(),
             assumptions: vec![
                 "the decimal exponent after `e` scales by base^exponent".into(),
                 "for bases > 14 where `e` is also a digit every consistent split is tried".into(),
@@ -235,7 +245,7 @@ impl Space for C05 {
     fn describe(&self, idx: u64) -> String {
         let (f, x, b, m) = self.case(idx);
         match x {
-            Some(x) => format!("{} {} base {} mode {}", ["to_string", "to_string", "query", "to_string"][f], engine::util::clip(&x.to_string(), 90), b, mode_name(m)),
+            Some(x) => format!("{} {} base {} mode {}", ["to_string", "to_string", "query", "to_string", "second of two to_string calls:"][f], engine::util::clip(&x.to_string(), 90), b, mode_name(m)),
             None => "(zero denominator: skipped)".into(),
         }
     }
@@ -274,6 +284,12 @@ impl Space for C05 {
         };
         let key = hash64(&(x.to_string(), base, mode_name(mode)));
         if f != 2 {
+            if f == 4 {
+                // print the first numeral of the pair (same mode, its own base) and discard it
+                let (_, d) = self.fams.locate(idx);
+                let (p, q) = SEQ_VALS[d[0] as usize];
+                let _ = to_numeric(&rat(p, q)).to_string(self.bases[d[2] as usize] as u8, mode);
+            }
             let (outcome, bad) = check_direct(&x, base, mode);
             let mut out = CaseOut::ok(outcome);
             if !x.is_zero() {
